@@ -1545,6 +1545,14 @@ class Engine:
             ob = Obligation(f"{self.prefix}/loop{idx}.lemma#{j}", "lemma", [], g, self.cur_line, st.trace)
             self.obligations.append(ob)
             st.assume(g)
+        # ground instances of the spec-function axioms at the loop counter: each is proved from the AXIOMS ALONE (plus the
+        # counter's range), then assumed — it spares the solver the quantifier instantiation inside the big obligations
+        rng = [h for h in st.pc if any(str(v.z) in str(h) for v in env.values() if isinstance(v, VNum))][:1]
+        for j, text in enumerate(spec.get("axiom_instances", [])):
+            g = self.eval_clause(text, st, env, old=entry)
+            ob = Obligation(f"{self.prefix}/loop{idx}.axiom-instance#{j}", "lemma", list(self.axioms) + rng, g, self.cur_line, st.trace)
+            self.obligations.append(ob)
+            st.assume(g)
 
     def s_For(self, s, st):
         if s.orelse:
